@@ -185,7 +185,7 @@ def curvature_rule(ctx, p):
         b = wire.kw(cnode, p.func("autoarray.inversion.inversion.inversion_util:curvature_matrix_via_mapping_matrix_from"))
         mm, nm = b.get("mapping_matrix"), b.get("noise_map")
         def part(e):
-            e = wire.strip_np_array(e) if e is not None else None
+            e = wire.strip_np_array(wire.inline_locals(f, e)) if e is not None else None
             if isinstance(e, ast.Attribute) and e.attr in ("real", "imag"):
                 return e.attr, norm_text(wire.strip_np_array(e.value))
             return None, norm_text(e) if e is not None else None
@@ -245,7 +245,7 @@ def wiring_rule(ctx, p):
         if len(cs) != 1:
             ctx.ob("C13.wiring", f"{init.key}:{nm}", None, message=f"expected exactly one call of {nm} in TransformerDFT.__init__, found {len(cs)}")
             continue
-        tabs[nm] = {k: norm_text(wire.strip_np_array(v)) for k, v in wire.kw(cs[0], callee).items()}
+        tabs[nm] = wire.kwr(init, cs[0], callee)   # name-free: local temporaries inlined, np.array(...) wrappers stripped
         # assigned to self.<nm>
         tgt = None
         for n in init.body_nodes():
@@ -289,8 +289,8 @@ def wiring_rule(ctx, p):
         if len(a) != 1 or len(b) != 1:
             ctx.ob("C13.wiring", f"{f.key}:branches", None, message=f"expected one preload and one direct call, found {len(a)}/{len(b)}")
             continue
-        ka = {k: norm_text(wire.strip_np_array(v)) for k, v in wire.kw(a[0], cp).items()}
-        kb = {k: norm_text(wire.strip_np_array(v)) for k, v in wire.kw(b[0], cd).items()}
+        ka = wire.kwr(f, a[0], cp)
+        kb = wire.kwr(f, b[0], cd)
         ok = ka.get(operand_kw) == kb.get(operand_kw) and ka.get(operand_kw) is not None
         ctx.ob("C13.wiring", f"{f.key}:operand", ok, where=f, node=a[0], construct=f"preload {operand_kw}={ka.get(operand_kw)} ; direct {operand_kw}={kb.get(operand_kw)}",
                message="preload and direct branches must receive the same form of the operand")
